@@ -1,6 +1,6 @@
 (* C01: generated serializers emit exactly the DSDL wire representation.
    Statements only; proofs in Spec/WireThm*.v (specification level) and Codec/Refine.v, Codec/RefineSer*.v (code-shaped walker). *)
-From Verif Require Import Wire WireThm WireThmRt WireThmValid Walker Refine RefineSerBits PrimsOn RefineSerBase RefineSer Gen_C01 GenC01Thm InstancesC InstancesCpp InstancesPy InstancesTyped BulkArrays BulkArraysTie TargetPre TargetPreThm PyWalker PyWalkerThm PyWalkerPre InstancesPySer InstancesOpt WalkerX RefineSerX InstancesX WireThmCast CppWalker CppWalkerThm CppWalkerInst PrimsCur F16SatCode PyAccept InstancesCW.
+From Verif Require Import Wire WireThm WireThmRt WireThmValid Walker Refine RefineSerBits PrimsOn RefineSerBase RefineSer Gen_C01 GenC01Thm InstancesC InstancesCpp InstancesPy InstancesTyped BulkArrays BulkArraysTie TargetPre TargetPreThm PyWalker PyWalkerThm PyWalkerPre InstancesPySer InstancesOpt WalkerX RefineSerX InstancesX WireThmCast CppWalker CppWalkerThm CppWalkerInst PrimsCur F16SatCode PyAccept InstancesCW WidthArith.
 Local Open Scope nat_scope.
 
 (* every encoding of every well-formed type lies within the exported bounds; composites are whole bytes *)
@@ -379,7 +379,11 @@ Print Assumptions c01_py_bulk_law.
 (* what the generated classes ACCEPT (`PyAccept.py_accepts`; the integer ranges are literally C18's model of the setters,
    `c01_py_in_range_is_c18`): on accepted values the saturation code of the serialization templates is dead - the cast mode does not
    influence the Python bytes - and an accepted, tie-free object is serialized successfully to the specification's bytes.
-   `err rejected` of the harness is the complement of `py_accepts`. *)
+   `err rejected` of the harness is the complement of `py_accepts`.  CORRECTION (audit 3): `py_accepts` holds at ASSIGNMENT, it is not
+   an invariant: array fields alias the caller's ndarray, an in-place write can put any value of the NumPy dtype into an element, so
+   for arrays of non-standard width the saturating / truncating branch IS reachable (`c01_py_saturation_live_example`);
+   `c01_py_saturation_dead` is about scalar fields and about arrays right after assignment.  `c01_py_walk_ser_refines` has no value
+   proviso and covers the wider domain. *)
 Theorem c01_py_saturation_dead : forall p v, py_in_range p v = true -> py_enc_prim p v = py_enc_prim (unsat p) v.
 Proof. exact py_saturation_dead. Qed.
 Print Assumptions c01_py_saturation_dead.
@@ -390,6 +394,13 @@ Theorem c01_py_accepted_serializes : forall Q u fs ext v cap, add_law Q (8 * cap
   exists bits, py_walk_ser Q py_enc_prim (TComp u fs ext) v cap = Ok bits /\ enc_body (TComp u fs ext) v = Ok bits.
 Proof. exact py_accepted_serializes. Qed.
 Print Assumptions c01_py_accepted_serializes.
+
+Example c01_py_saturation_live_example :
+  py_elem_reachable (PU 7 true) (VInt 200) = true /\ py_in_range (PU 7 true) (VInt 200) = false /\
+  py_enc_prim (PU 7 true) (VInt 200) = Ok (bits_of_N 7 127) /\ py_enc_prim (PU 7 false) (VInt 200) = Ok (bits_of_N 7 72) /\
+  py_enc_prim (PS 5 true) (VInt (-100)) = Ok (bits_of_N 5 16) /\
+  enc_prim (PU 7 true) (VInt 200) = Ok (bits_of_N 7 127) /\ enc_prim (PU 7 false) (VInt 200) = Ok (bits_of_N 7 72).
+Proof. exact py_saturation_live_example. Qed.
 
 Theorem c01_py_in_range_is_c18 : forall w s z, 1 <= w ->
   py_in_range (PU w s) (VInt z) = PyObj.int_in_range (PyObj.KU (Z.of_nat w)) z /\
@@ -406,8 +417,11 @@ Example c01_py_bulk_paths_run :
   py_array_kind (TPrim (PS 13 true)) = PALoop.
 Proof. vm_compute. repeat split; reflexivity. Qed.
 
-(* AUDIT 2 (size_t width).  The C instance for EVERY width M >= 2^16 of size_t (Codec/InstancesCW.v over b-c14's width-parametric
-   support header Prims/CPrimsW.v, current nunavutSetUxx text), hence for the 32-bit MCUs; `c_prims` above is M = 2^64. *)
+(* AUDIT 2/3 (size_t width).  The C instance with the PRIMITIVE CALLS at every width M >= 2^16 of size_t (Codec/InstancesCW.v over
+   b-c14's width-parametric support header Prims/CPrimsW.v, current nunavutSetUxx text); `c_prims` above is M = 2^64.  The walker's own
+   arithmetic is in nat: what carries it to a width W is only the side condition (8*cap < 2^W: every serialization cursor is <= 8*cap)
+   - see Codec/WidthArith.v and C02.v `c02_c_cursor_bounded`; this is NOT a routine whose arithmetic is performed modulo 2^W, and there
+   is NO such statement for the C++ walkers (64-bit only; defect D1, C02.v `c02_cpp_hdr_check_32_refuted`). *)
 Theorem c01_c_walk_ser_refines_W : forall M, (65536 <= M)%N -> forall (little : bool) u fs ext v buf cap,
   wf_ty (TComp u fs ext) = true -> length buf = 8 * cap -> (N.of_nat (8 * cap) < M)%N ->
   storage_ok (TComp u fs ext) v = true ->
